@@ -14,6 +14,12 @@ CLAIMED = {
     "C08": dict(text="real topology descriptors, Mesh/BoutMesh index code and the AST slice of writeGridfile run with symbolic integer sizes; z3 (LIA) decides tiling, connection symmetry, BOUT++ decoding of ixseps/jyseps == hypnotoad adjacency and index ordering for all sizes >= 1",
                 note="numerics (findLegs, coreRegionToRegion, segmentsWithPsivals) stubbed; BOUT++ reference semantics written in the harness; guards enumerated 0..4; coordinates on shared edges not decided",
                 tech=TECH + "; QF_LIA over unbounded sizes"),
+    "C09": dict(text="real getSmoothMonotonicGridFunc (linear, cubic, erf, trig cases) and make1dGrid on symbolic reals, derivatives by jets through the real closures; z3 decides end values, end gradients, zero second derivative at separatrix ends, monotonicity on [0,n] and resolution nesting for all n>=1 and all admissible parameters; descriptor hands the same dpsidi_sep to both sides of each separatrix",
+                note="brentq replaced by a root contract; exp/erf/sin/cos uninterpreted with sound axioms; Si/Ci case only b>0; erf nesting not decided; reals not doubles",
+                tech=TECH + "; QF_NRA/UF with forward-mode AD (jets)"),
+    "C10": dict(text="real monotonic/sqrt/linear poloidal spacing constructors evaluated through numpy.piecewise on symbolic reals and jets; z3 decides s(0)=0, s(N)=L, end gradients in normalised index, straight-line extrapolations, positivity of ds/di (convex case), resolution nesting; _checkMonotonic and get_distance guard contracts",
+                note="N = w^2 N_norm parametrisation; brentq -> root contract; log/exp uninterpreted; interior monotonicity of sqrt family and concave case not decided; reals not doubles",
+                tech=TECH + "; QF_NRA/UF with forward-mode AD (jets)"),
     "C13": dict(text="real ParallelMap on a model of multiprocessing; every interleaving of queue operations within the bound is explored by the path explorer, the failing task index and the arrival permutation are z3 integers",
                 note="queues are reliable FIFOs, processes run only when scheduled, dill = identity, tasks pure; 2-3 workers, 1-3 tasks, <= 1 failing task",
                 tech="path exploration of the real code on a scheduler model (schedules = explorer choice points) with symbolic failing index / arrival permutation decided by z3 (LIA); replay on the model and on real multiprocessing"),
